@@ -641,3 +641,4 @@ not_reproduced()
 
 # level text addendum (cases added after the seeded-change rounds)
 LEVEL_TEXT = LEVEL_TEXT + ' Also: histories on one converter object, a failed verification followed by the deletion step, the deletion step without any verification, a shank subset, NP2.1 input that arrives compressed, do-nothing runs leave the directory listing unchanged.'
+LEVEL_TEXT = LEVEL_TEXT + " Round 6: a repeated run without overwrite whose compress / post_check options differ from the first run's, and the public compression step called again on the same converter."
